@@ -9,7 +9,7 @@ from lib import impl
 from lib.core import cN, cbool, cbytes, clist, copt, cpair, ctor, vL, vN, vset
 
 PROPERTY = "C06"
-GEN: list = []
+GEN = ["gc"]  # Gen/GcDecisions.v: the decisions of gc() (translator/gcunit.py), regenerated every run
 RULE = (
     "stores are built from <=3 file objects, <=2 directory objects over them (shared files, a listed "
     "file that is absent), an unused directory object and a stray file; used sets range over store ids, "
@@ -27,6 +27,12 @@ RULE = (
     "least one, or raised."
 )
 ASSUMPTIONS = [
+    "the model gc is assembled from decisions generated from the AST of gc.py (translator unit gc, fail-closed on "
+    "the statement sequence): guard, algorithm filter, expansion test + source, scan test + source, .dir partition, "
+    "count/removal guards, defaults; the loop STRUCTURE around them is hand-written and pinned by the shape check. "
+    "Trusted: translator/gcunit.py's reading of those expressions; QueryingProgress passes its iterable through; "
+    "`if not cache_odb` means `is None` (HashFileDB defines neither __bool__ nor __len__ - checked; ObjectDB in "
+    "dvc_objects is outside the translated tree)",
     "the property speaks about the OBJECTS of the store: regular files at <root>/<2 chars>/<rest>. The legacy "
     "<oid>.dir.unpacked side directories of old DVC caches are not objects (odb.all() does not list them, the "
     "model does not contain them); that gc removes the side directory of an unused .dir object on local-class "
